@@ -81,6 +81,41 @@ impl<'a, K, V> Entry<'a, K, V> {
     {
         self.or_insert(V::default())
     }
+    pub fn or_insert_with<F: FnOnce() -> V>(self, f: F) -> &'a mut V {
+        match self {
+            Entry::Occupied(o) => o.into_mut(),
+            Entry::Vacant(va) => va.insert(f()),
+        }
+    }
+    pub fn or_insert_with_key<F: FnOnce(&K) -> V>(self, f: F) -> &'a mut V {
+        match self {
+            Entry::Occupied(o) => o.into_mut(),
+            Entry::Vacant(va) => {
+                let v = f(&va.key);
+                va.insert(v)
+            }
+        }
+    }
+    pub fn and_modify<F: FnOnce(&mut V)>(mut self, f: F) -> Self {
+        if let Entry::Occupied(o) = &mut self {
+            f(o.get_mut());
+        }
+        self
+    }
+    pub fn key(&self) -> &K {
+        match self {
+            Entry::Occupied(o) => o.key(),
+            Entry::Vacant(va) => &va.key,
+        }
+    }
+}
+impl<'a, K, V> VacantEntry<'a, K, V> {
+    pub fn key(&self) -> &K {
+        &self.key
+    }
+    pub fn into_key(self) -> K {
+        self.key
+    }
 }
 
 impl<K: PartialEq, V> HashMap<K, V> {
@@ -141,6 +176,37 @@ impl<K: PartialEq, V> HashMap<K, V> {
     pub fn clear(&mut self) {
         self.0.clear()
     }
+    pub fn retain<F: FnMut(&K, &mut V) -> bool>(&mut self, mut f: F) {
+        self.0.retain_mut(|(k, v)| f(k, v))
+    }
+    pub fn remove_entry(&mut self, k: &K) -> Option<(K, V)> {
+        self.find(k).map(|i| self.0.remove(i))
+    }
+    pub fn get_key_value(&self, k: &K) -> Option<(&K, &V)> {
+        self.find(k).map(|i| (&self.0[i].0, &self.0[i].1))
+    }
+    pub fn drain(&mut self) -> std::vec::Drain<'_, (K, V)> {
+        self.0.drain(..)
+    }
+    pub fn into_keys(self) -> impl Iterator<Item = K> {
+        self.0.into_iter().map(|(k, _)| k)
+    }
+    pub fn into_values(self) -> impl Iterator<Item = V> {
+        self.0.into_iter().map(|(_, v)| v)
+    }
+    pub fn with_capacity(_n: usize) -> Self {
+        HashMap(Vec::new())
+    }
+}
+impl<'a, K, V> IntoIterator for &'a HashMap<K, V> {
+    type Item = (&'a K, &'a V);
+    type IntoIter = std::iter::Map<std::slice::Iter<'a, (K, V)>, fn(&'a (K, V)) -> (&'a K, &'a V)>;
+    fn into_iter(self) -> Self::IntoIter {
+        fn split<'b, K, V>(e: &'b (K, V)) -> (&'b K, &'b V) {
+            (&e.0, &e.1)
+        }
+        self.0.iter().map(split as fn(&'a (K, V)) -> (&'a K, &'a V))
+    }
 }
 impl<K, V> IntoIterator for HashMap<K, V> {
     type Item = (K, V);
@@ -181,6 +247,30 @@ impl<K: PartialEq> HashSet<K> {
         }
     }
     pub fn iter(&self) -> impl Iterator<Item = &K> {
+        self.0.iter()
+    }
+    pub fn retain<F: FnMut(&K) -> bool>(&mut self, f: F) {
+        self.0.retain(f)
+    }
+    pub fn clear(&mut self) {
+        self.0.clear()
+    }
+    pub fn with_capacity(_n: usize) -> Self {
+        HashSet(Vec::new())
+    }
+    pub fn extend<I: IntoIterator<Item = K>>(&mut self, it: I) {
+        for k in it {
+            let _ = self.insert(k);
+        }
+    }
+    pub fn drain(&mut self) -> std::vec::Drain<'_, K> {
+        self.0.drain(..)
+    }
+}
+impl<'a, K> IntoIterator for &'a HashSet<K> {
+    type Item = &'a K;
+    type IntoIter = std::slice::Iter<'a, K>;
+    fn into_iter(self) -> Self::IntoIter {
         self.0.iter()
     }
 }
